@@ -203,3 +203,26 @@ func (c *Ctx) c12TypeRetyped() {
 		}
 	}
 }
+
+// c12OpenFinding replays the recorded, unrepaired defect: two local struct types of one name in nested blocks of one
+// function share one type object (its key is function name + type name), so the inner type keeps the fields of the
+// outer one that it does not declare
+func (c *Ctx) c12OpenFinding() {
+	const id = "shadowed-local-type-keeps-outer-fields"
+	src := "import \"fmt\"\nfunc f() {\n\ttype P struct {\n\t\tX int\n\t\tY int\n\t}\n\ta := &P{}\n\tif a.X == 0 {\n\t\ttype P struct {\n\t\t\tX int\n\t\t}\n\t\tb := &P{}\n\t\tfmt.Println(b)\n\t}\n\tc := &P{}\n\tfmt.Println(c)\n}\nf()\n"
+	out, err := runScript(src)
+	c.Rep.Oracle["open-finding-witness"]++
+	const want = "&{X:0}\n&{X:0 Y:0}\n"
+	if err == nil && out == want {
+		return
+	}
+	if f, ok := c.Findings[id]; ok && err == nil && out == "&{X:0 Y:0}\n&{X:0 Y:0}\n" {
+		c.Rep.Known = append(c.Rep.Known, id+": "+f.What+" (witness prints "+strings.ReplaceAll(strings.TrimSpace(out), "\n", " / ")+")")
+		return
+	}
+	e := ""
+	if err != nil {
+		e = " ERR " + err.Error()
+	}
+	c.Rep.Violate(Violation{Kind: "oracle", Cut: "open-finding-witness", Input: src, Impl: out + e, Oracle: want})
+}
